@@ -368,3 +368,56 @@ class EquivRecorder:
                             self.events.append(eq_event("path", x, y, path=p))
         finally:
             self.depth -= 1
+
+
+# ---------------------------------------------------------------------------------------
+# TableMethod (forest rule database)
+
+_TM_REG: Dict[int, "TableRecorder"] = {}
+_TM_ORIG: Dict[str, Callable] = {}
+
+
+def _install_table_patches():
+    if _TM_ORIG:
+        return
+    from comb_spec_searcher.rule_db.forest import TableMethod
+
+    orig = TableMethod.add_rule_key
+    _TM_ORIG["add_rule_key"] = orig
+
+    def wrapper(self, rule_key, *a, **k):
+        rec = _TM_REG.get(id(self))
+        if rec is None or rec.tm is not self:
+            return orig(self, rule_key, *a, **k)
+        try:
+            return orig(self, rule_key, *a, **k)
+        finally:
+            rec.events.append({"op": "add", "p": int(rule_key.parent), "ch": [int(c) for c in rule_key.children],
+                               "sh": [int(s) for s in rule_key.shifts], "fn": [], "bucket": rule_key.bucket.name})
+            if rec.observe_each:
+                rec.observe()
+
+    TableMethod.add_rule_key = wrapper
+
+
+class TableRecorder:
+    def __init__(self, tm, nc=None, observe_each=True, sink: Optional[List[dict]] = None):
+        _install_table_patches()
+        self.tm, self.nc, self.observe_each = tm, nc, observe_each
+        self.events: List[dict] = [] if sink is None else sink
+        _TM_REG[id(tm)] = self
+
+    def close(self):
+        _TM_REG.pop(id(self.tm), None)
+
+    def observe(self, nc=None):
+        nc = nc or self.nc
+        try:
+            fn = self.tm.function
+            vec = [(-1 if fn.get(c, 0) is None else int(fn.get(c, 0))) for c in range(nc)]
+            extra = [c for c in fn if not 0 <= c < nc]
+            if extra:
+                vec = []  # malformed: a class outside the universe got a value
+        except BaseException:
+            vec = []
+        self.events.append({"op": "observe", "p": 0, "ch": [], "sh": [], "fn": vec, "bucket": ""})
